@@ -4,7 +4,7 @@ import GontainerModel.Props.C18
 #print axioms GM.C18.gate_skipped
 #print axioms GM.C18.validate_is_gate
 #print axioms GM.C18.decode_rejects_v_prefix
-#print axioms GM.C18.pin_main_normalisation
+#print axioms GM.C18.pin_main_handed
 #print axioms GM.C18.linker_v_stripped
 #print axioms GM.C18.linker_gate
 #print axioms GM.C18.linker_non_semver
